@@ -71,11 +71,23 @@ def main():
                                  "what": str(d.get("what") or d.get("no_longer_checks"))[:400]})
                 except Exception as e:  # noqa: BLE001
                     reps.append({"error": str(e)})
+            # the registered replay command on the first failing-input replay: must fail on the changed tree, hold on /repo
+            rp = None
+            for l, r_ in zip(viol, reps):
+                if r_.get("kind") == "failing-input":
+                    path = l.split("replay=")[1].split()[0]
+                    rc_c, _ = sh([str(vf / "check"), p, "--replay", path], cwd=str(vf), env=env, timeout=900)
+                    env_p = dict(env, TE_REPO=REPO)
+                    rc_p, _ = sh([str(vf / "check"), p, "--replay", path], cwd=str(vf), env=env_p, timeout=900)
+                    rp = {"replay_exit_on_changed_tree": rc_c, "replay_exit_on_pristine_tree": rc_p}
+                    break
             out["checks"][p] = {"exit": rc, "violations": viol, "replays": reps, "wall_s": round(time.time() - t0, 1),
-                                "summary": [l for l in lines if l.startswith(p + " ")]}
+                                "summary": [l for l in lines if l.startswith(p + " ")], "replay_cmd": rp}
             print(f"{p}: exit {rc}; {len(viol)} VIOLATION line(s); {time.time()-t0:.0f}s")
             for r in reps[:4]:
                 print("   ", json.dumps(r)[:300])
+            if rp:
+                print("    replay cmd:", rp)
             if rc not in (0, 1):
                 print("    tail:", o.strip().split("\n")[-5:])
     finally:
